@@ -68,6 +68,8 @@ def kind_of(fn):
 
 
 def run(ctx, prog):
+    from rules import shift
+    shift.run(ctx, prog)
     rule = "R-LADDER"
     it = absint.Interp(prog,
                        emit=("MsgPackSerializer::writeByte", "MsgPackSerializer::writeInteger",
